@@ -68,6 +68,17 @@ func key(s *state) string {
 }
 
 // verify checks that bytes b encode the current content of the root.
+// recursiveField finds a singular message field of parent whose type is child's type.
+func recursiveField(parent, child protoreflect.MessageDescriptor) protoreflect.FieldDescriptor {
+	for i := 0; i < parent.Fields().Len(); i++ {
+		fd := parent.Fields().Get(i)
+		if fd.Message() != nil && !fd.IsList() && !fd.IsMap() && fd.ContainingOneof() == nil && fd.Message().FullName() == child.FullName() {
+			return fd
+		}
+	}
+	return nil
+}
+
 func verify(c *core.Ctx, s *state, b []byte, err error, what, h string) {
 	if err != nil {
 		c.Violation(fmt.Sprintf("%s returns error: %s", what, h), err.Error())
@@ -169,6 +180,37 @@ func ops() []hist.Op[*state] {
 			}
 			verify(c, s, b, err, "MarshalAppend", h)
 		}),
+		mk("MarshalAppend(spare capacity)(root)", func(c *core.Ctx, s S, h string) {
+			// the documented buffer-reuse pattern: a destination with room left
+			buf := make([]byte, 3, 1<<14)
+			b, err := proto.MarshalOptions{AllowPartial: true}.MarshalAppend(buf, s.root.Interface())
+			if err == nil {
+				b = b[3:]
+			}
+			verify(c, s, b, err, "MarshalAppend into a buffer with spare capacity", h)
+		}),
+		mk("Marshal(dynamic parent of root)", func(c *core.Ctx, s S, h string) {
+			// a parent without fast-path methods marshals the generated child into its partly filled buffer
+			fd := recursiveField(s.dyn.Descriptor(), s.root.Descriptor())
+			if fd == nil {
+				return
+			}
+			p := s.dyn.New()
+			p.Set(fd, protoreflect.ValueOfMessage(s.root))
+			b, err := proto.MarshalOptions{AllowPartial: true}.Marshal(p.Interface())
+			if err != nil {
+				c.Violation("Marshal of a dynamic parent holding the message returns error: "+h, err.Error())
+				return
+			}
+			d := s.dyn.New()
+			if err := (proto.UnmarshalOptions{AllowPartial: true}).Unmarshal(b, d.Interface()); err != nil {
+				c.Violation("Marshal of a dynamic parent holding the message does not decode: "+h, err.Error())
+				return
+			}
+			if want, got := univ.Snapshot(s.root), univ.Snapshot(d.Get(fd).Message()); want != got {
+				c.Violation("Marshal of a dynamic parent holding the message is stale: "+h, map[string]any{"content": want, "decoded": got})
+			}
+		}),
 		mk("Size+MarshalUseCachedSize(root)", func(c *core.Ctx, s S, h string) {
 			// precondition of UseCachedSize: a full Size call immediately before, no mutation in between
 			proto.MarshalOptions{AllowPartial: true}.Size(s.root.Interface())
@@ -187,7 +229,7 @@ func ops() []hist.Op[*state] {
 }
 
 func run(c *core.Ctx) {
-	c.Rule = "explicit-state BFS over histories of 25 operations (leaf/mid/list-element/map-value/oneof-member mutations that change encoded length incl. across the 127/128 length-prefix boundary and that empty a child in place; Size at three levels; Marshal default/Deterministic/Append/UseCachedSize-after-Size; Clone/Equal) on a real three-level message in open, hybrid, opaque and proto3 flavors; state key = canonical content + every size-cache word read by reflection; in every state reached by a Marshal transition the output must decode (independent dynamicpb decoder) to the current content"
+	c.Rule = "explicit-state BFS over histories of 27 operations (leaf/mid/list-element/map-value/oneof-member mutations that change encoded length incl. across the 127/128 length-prefix boundary and that empty a child in place; Size at three levels; Marshal default/Deterministic/Append (full and with spare capacity)/UseCachedSize-after-Size/through a dynamicpb parent holding the message; Clone/Equal) on a real three-level message in open, hybrid, opaque and proto3 flavors; state key = canonical content + every size-cache word read by reflection; in every state reached by a Marshal transition the output must decode (independent dynamicpb decoder) to the current content"
 	depth := core.Pick(c, 5, 7)
 	c.Bounds["depth"] = depth
 	var out []map[string]any
